@@ -10,10 +10,11 @@ import core
 
 warnings.filterwarnings('ignore')
 PROP = 'C19'
-LEAN_TARGETS = ['MM.Props.C19', 'MM.Driver.Wire', 'MM.Model.Screen']
+LEAN_TARGETS = ['MM.Props.C19', 'MM.Driver.Wire', 'MM.Model.Screen', 'MM.Props.Outliers', 'MM.Props.OutliersTie']
 THEOREMS = ['MM.Screen.' + n for n in (
     'C19_data', 'C19_analysis', 'C19_reports', 'C19_totals', 'C19_totals_perm', 'C19_totals_other_groups',
     'C19_totals_split', 'C19_perm_invariant', 'C19_total_fn')]
+THEOREMS = list(THEOREMS) + ['MM.Outliers.' + n for n in ('step_progress', 'loop_terminates', 'loop_reports_dates', 'original_does_not_terminate', 'repaired_stops_on_perfectFit', 'tie_outlier_loop')]
 TRUSTED_BASE = [
     'Lean 4.33.0 kernel; axioms propext, Classical.choice, Quot.sound (audited per theorem)',
     'hand model MM/Model/Screen.lean of the orchestration of TBRDiagnostics.fit; the two detectors (noisy geos, outlier dates) are '
